@@ -59,7 +59,16 @@ func (m StringifiedMessage) TagType() byte {
 func (m StringifiedMessage) MarshalNBT(w io.Writer) error {
 	d := decodeState{data: []byte(m)}
 	d.scan.reset()
-	return writeValue(NewEncoder(w), &d, false, "")
+	if err := writeValue(NewEncoder(w), &d, false, ""); err != nil {
+		return err
+	}
+	for d.off < len(d.data) { // only spaces may follow the value
+		d.scanNext()
+	}
+	if d.scan.errContext != "" {
+		return d.error(d.scan.errContext)
+	}
+	return nil
 }
 
 func (m *StringifiedMessage) UnmarshalNBT(tagType byte, r DecoderReader) error {
